@@ -10,6 +10,9 @@
             insq k v | remq k [fk fv] -> result / ["own a b"] only;  check -> "t ..." / "chk ..."
    ht ops : put k v | find k | rem k [fk fv] | clear [fk fv] | dump -> result / ["own a b"] / "chk ok n=<count>"
    trie   : ins <hex> v | find <hex> | rem <hex> [f] | dump -> one result line (+ "own a" after rem)
+   allocation failure: header word "const" = the node pool (capacity <cap>) cannot grow, so the allocation of
+   a node fails when <cap> nodes are in use (the model counts its nodes); op "failat j" = the j-th allocation
+   inside the next insert / put fails (no output).  Both become the oracle of the *_step_o functions.
    fk / fv / f: the free callback is passed (1, default) or NULL (0); own: what went through the callbacks
    (the node-pool capacity is ignored by the model: allocation is not modelled) *)
 
@@ -58,6 +61,20 @@ let own2 (a, b) = print_endline ("own " ^ string_of_bool01 a ^ " " ^ string_of_b
 let hi_bytes (s : string) : z list =
   List.init (String.length s) (fun i -> z_of_int (if i mod 2 = 0 then Char.code s.[i] lor 0x80 else Char.code s.[i]))
 
+(* oracle of the next insert: [used] nodes are drawn from a pool of [cap] nodes that cannot grow (const),
+   and / or the j-th allocation of the call fails (failat) *)
+let pending_fail = ref 0
+let budget (is_const : bool) (cap : int) (used : int) : nat option =
+  let a = if is_const && cap > 0 then Some (max 0 (cap - used)) else None in
+  let b = if !pending_fail > 0 then Some (!pending_fail - 1) else None in
+  pending_fail := 0;
+  match a, b with
+  | None, None -> None
+  | Some x, None | None, Some x -> Some (nat_of_int x)
+  | Some x, Some y -> Some (nat_of_int (min x y))
+let is_const_hdr hd = List.mem "const" (words hd)
+let cap_of hd = (match words hd with _ :: c :: _ -> (try int_of_string c with _ -> 0) | _ -> 0)
+
 let ht_count (t : ht) = List.fold_left (fun a b -> a + List.length b) 0 t.ht_buckets
 
 let rec trie_dump (prefix : z list) (t : trie) (acc : (z list * z) list ref) =
@@ -71,6 +88,10 @@ let handle (lines : string list) : unit =
   match lines with
   | [] -> ()
   | hd :: ops ->
+    pending_fail := 0;
+    let is_const = is_const_hdr hd and cap = cap_of hd in
+    let set_fail l = (match words l with ["failat"; j] -> pending_fail := int_of_string j; true | _ -> false) in
+    let ops = ops in
     (match words hd with
      | "avl" :: _ ->
        print_endline "init ok";
@@ -85,17 +106,20 @@ let handle (lines : string list) : unit =
           | _ -> ()) in
        List.iter (fun l ->
          match words l with
-         | ["ins"; k; v] ->
-           let (t', ok) = avl_insert (z_of_string k) (z_of_string v) !t in
-           t := t'; hstep (Ins (z_of_string k, z_of_string v)) (RIns ok);
-           print_endline ("ins " ^ string_of_bool01 ok); print_avl !t !hs
+         | ["failat"; _] -> ignore (set_fail l)
+         | ("ins" | "insq" as w) :: k :: v :: [] ->
+           let b = budget is_const cap (int_of_nat (avl_size !t)) in
+           let (t', r) = avl_step_o !t (OpA (Ins (z_of_string k, z_of_string v), b)) in
+           let ok = (match r with RIns x -> x | _ -> false) in
+           let refused = (b = Some O) in
+           t := t';
+           (* a refused allocation: the pointer program is not run (nothing changes) *)
+           if not refused then hstep (Ins (z_of_string k, z_of_string v)) (RIns ok);
+           print_endline ("ins " ^ string_of_bool01 ok);
+           if w = "ins" then print_avl !t !hs
          | ["find"; k] ->
            let r = avl_find (z_of_string k) !t in
            hstep (Find (z_of_string k)) (RFind r); opt_line "find" r; print_avl !t !hs
-         | ["insq"; k; v] ->
-           let (t', ok) = avl_insert (z_of_string k) (z_of_string v) !t in
-           t := t'; hstep (Ins (z_of_string k, z_of_string v)) (RIns ok);
-           print_endline ("ins " ^ string_of_bool01 ok)
          | ("rem" | "remq" as w) :: k :: fl ->
            let (fk, fv) = (match fl with [a; b] -> (flag a, flag b) | _ -> (true, true)) in
            let (t', (r, o)) = avl_step_cb !t (OpF (Rem (z_of_string k), fk, fv)) in
@@ -133,9 +157,13 @@ let handle (lines : string list) : unit =
          else print_endline "chk FAIL heap-model" in
        List.iter (fun l ->
          match words l with
+         | ["failat"; _] -> ignore (set_fail l)
          | ["put"; k; v] ->
-           let (t', ok) = ht_put hash !t (z_of_string k) (z_of_string v) in
-           t := t'; hstep (Ins (z_of_string k, z_of_string v)) (RIns ok);
+           let b = budget is_const cap (ht_count !t) in
+           let (t', r) = ht_step_o hash !t (OpA (Ins (z_of_string k, z_of_string v), b)) in
+           let ok = (match r with RIns x -> x | _ -> false) in
+           t := t';
+           if b <> Some O then hstep (Ins (z_of_string k, z_of_string v)) (RIns ok);
            print_endline ("put " ^ string_of_bool01 ok); chk ()
          | ["find"; k] ->
            let r = ht_find hash !t (z_of_string k) in
@@ -171,7 +199,12 @@ let handle (lines : string list) : unit =
        let t = ref trie_empty in
        List.iter (fun l ->
          match words l with
-         | ["ins"; k; v] -> t := trie_insert !t (bytes_of_hex k) (z_of_string v); print_endline "ins 1"
+         | ["failat"; _] -> ignore (set_fail l)
+         | ["ins"; k; v] ->
+           let b = budget is_const cap (int_of_nat (trie_nodes !t)) in
+           let (t', r) = trie_step_o !t (OpA (Ins (bytes_of_hex k, z_of_string v), b)) in
+           t := t';
+           print_endline ("ins " ^ (match r with RIns true -> "1" | _ -> "0"))
          | ["find"; k] -> opt_line "find" (trie_lookup !t (bytes_of_hex k))
          | "rem" :: k :: fl ->
            let f = (match fl with [a] -> flag a | _ -> true) in
